@@ -8,10 +8,24 @@
 #include <nix.hpp>
 #include "vf.hpp"
 #include "ops.hpp"
+#include <map>
+#include <memory>
 
 using namespace nix;
 
 struct Child { std::string name, id; };
+
+// ---- witness handles: in "kept" mode the container's parent / holder is not fetched afresh for every question but taken from a
+// handle obtained (and asked) BEFORE the steps of the trace; all modifications go through fresh handles.  What a container
+// shows must not depend on when the handle to its parent was obtained.
+static bool g_use_kept = false;
+static std::map<std::string, std::shared_ptr<void>> g_kept;
+template <typename T, typename F> static T parent_of(const char *key, F make) {
+    if (!g_use_kept) return make();
+    auto it = g_kept.find(key);
+    if (it == g_kept.end()) it = g_kept.emplace(std::string(key), std::shared_ptr<void>(std::make_shared<T>(make()))).first;
+    return *std::static_pointer_cast<T>(it->second);
+}
 
 struct Cont {
     std::string name;                                  // e.g. "Block.dataArrays"
@@ -33,15 +47,15 @@ struct Cont {
     {                                                                                                          \
         Cont c; c.name = CNAME;                                                                                \
         c.setup = [](File &f, const std::vector<std::string> &) { SETUP; };                                    \
-        c.create = [](File &f, const std::string &n) { PARENT_T p = PARENT_EXPR; return (CREATE_EXPR).id(); }; \
-        c.count = [](File &f) { PARENT_T p = PARENT_EXPR; return (size_t)p.COUNT(); };                         \
-        c.at = [](File &f, size_t i) { PARENT_T p = PARENT_EXPR; auto e = p.GETI(i); return Child{e.name(), e.id()}; }; \
-        c.by = [](File &f, const std::string &k) { PARENT_T p = PARENT_EXPR; auto e = p.GETS(k); return e ? e.id() : std::string(); }; \
-        c.has = [](File &f, const std::string &k) { PARENT_T p = PARENT_EXPR; return p.HAS(k); };              \
-        c.has_handle = [](File &f, size_t i) { PARENT_T p = PARENT_EXPR; return p.HAS(p.GETI(i)); };           \
-        c.del = [](File &f, const std::string &k) { PARENT_T p = PARENT_EXPR; return p.DEL(k); };              \
-        c.del_handle = [](File &f, size_t i) { PARENT_T p = PARENT_EXPR; return p.DEL(p.GETI(i)); };           \
-        c.list = [](File &f) { PARENT_T p = PARENT_EXPR; std::vector<std::string> v; for (auto &e : p.LIST()) v.push_back(e.id()); return v; }; \
+        c.create = [](File &f, const std::string &n) { PARENT_T p = parent_of<PARENT_T>(CNAME, [&]() -> PARENT_T { return PARENT_EXPR; }); return (CREATE_EXPR).id(); }; \
+        c.count = [](File &f) { PARENT_T p = parent_of<PARENT_T>(CNAME, [&]() -> PARENT_T { return PARENT_EXPR; }); return (size_t)p.COUNT(); };                         \
+        c.at = [](File &f, size_t i) { PARENT_T p = parent_of<PARENT_T>(CNAME, [&]() -> PARENT_T { return PARENT_EXPR; }); auto e = p.GETI(i); return Child{e.name(), e.id()}; }; \
+        c.by = [](File &f, const std::string &k) { PARENT_T p = parent_of<PARENT_T>(CNAME, [&]() -> PARENT_T { return PARENT_EXPR; }); auto e = p.GETS(k); return e ? e.id() : std::string(); }; \
+        c.has = [](File &f, const std::string &k) { PARENT_T p = parent_of<PARENT_T>(CNAME, [&]() -> PARENT_T { return PARENT_EXPR; }); return p.HAS(k); };              \
+        c.has_handle = [](File &f, size_t i) { PARENT_T p = parent_of<PARENT_T>(CNAME, [&]() -> PARENT_T { return PARENT_EXPR; }); return p.HAS(p.GETI(i)); };           \
+        c.del = [](File &f, const std::string &k) { PARENT_T p = parent_of<PARENT_T>(CNAME, [&]() -> PARENT_T { return PARENT_EXPR; }); return p.DEL(k); };              \
+        c.del_handle = [](File &f, size_t i) { PARENT_T p = parent_of<PARENT_T>(CNAME, [&]() -> PARENT_T { return PARENT_EXPR; }); return p.DEL(p.GETI(i)); };           \
+        c.list = [](File &f) { PARENT_T p = parent_of<PARENT_T>(CNAME, [&]() -> PARENT_T { return PARENT_EXPR; }); std::vector<std::string> v; for (auto &e : p.LIST()) v.push_back(e.id()); return v; }; \
         conts.push_back(c);                                                                                    \
     }
 
@@ -64,70 +78,70 @@ static std::vector<Cont> make_containers() {
         Cont c; c.name = "Tag.references"; c.link = true;
         c.setup = [](File &f, const std::vector<std::string> &names) { Block b = f.createBlock("blk", "t"); b.createTag("holder", "t", {1.0}); for (auto &n : names) b.createDataArray(n, "t", DataType::Double, NDSize({1})); };
         c.create = [](File &f, const std::string &n) { Block b = f.getBlock("blk"); Tag t = b.getTag("holder"); DataArray a = b.getDataArray(n); if (t.hasReference(a.id())) throw DuplicateName("reference exists"); t.addReference(a); return a.id(); };
-        c.count = [](File &f) { return (size_t)f.getBlock("blk").getTag("holder").referenceCount(); };
-        c.at = [](File &f, size_t i) { auto e = f.getBlock("blk").getTag("holder").getReference(i); return Child{e.name(), e.id()}; };
-        c.by = [](File &f, const std::string &k) { auto e = f.getBlock("blk").getTag("holder").getReference(k); return e ? e.id() : std::string(); };
-        c.has = [](File &f, const std::string &k) { return f.getBlock("blk").getTag("holder").hasReference(k); };
-        c.has_handle = [](File &f, size_t i) { Tag t = f.getBlock("blk").getTag("holder"); return t.hasReference(t.getReference(i)); };
-        c.del = [](File &f, const std::string &k) { return f.getBlock("blk").getTag("holder").removeReference(k); };
-        c.del_handle = [](File &f, size_t i) { Tag t = f.getBlock("blk").getTag("holder"); return t.removeReference(t.getReference(i)); };
-        c.list = [](File &f) { std::vector<std::string> v; for (auto &e : f.getBlock("blk").getTag("holder").references()) v.push_back(e.id()); return v; };
+        c.count = [](File &f) { return (size_t)parent_of<Tag>("holder", [&]() -> Tag { return f.getBlock("blk").getTag("holder"); }).referenceCount(); };
+        c.at = [](File &f, size_t i) { auto e = parent_of<Tag>("holder", [&]() -> Tag { return f.getBlock("blk").getTag("holder"); }).getReference(i); return Child{e.name(), e.id()}; };
+        c.by = [](File &f, const std::string &k) { auto e = parent_of<Tag>("holder", [&]() -> Tag { return f.getBlock("blk").getTag("holder"); }).getReference(k); return e ? e.id() : std::string(); };
+        c.has = [](File &f, const std::string &k) { return parent_of<Tag>("holder", [&]() -> Tag { return f.getBlock("blk").getTag("holder"); }).hasReference(k); };
+        c.has_handle = [](File &f, size_t i) { Tag t = parent_of<Tag>("holder", [&]() -> Tag { return f.getBlock("blk").getTag("holder"); }); return t.hasReference(t.getReference(i)); };
+        c.del = [](File &f, const std::string &k) { return parent_of<Tag>("holder", [&]() -> Tag { return f.getBlock("blk").getTag("holder"); }).removeReference(k); };
+        c.del_handle = [](File &f, size_t i) { Tag t = parent_of<Tag>("holder", [&]() -> Tag { return f.getBlock("blk").getTag("holder"); }); return t.removeReference(t.getReference(i)); };
+        c.list = [](File &f) { std::vector<std::string> v; for (auto &e : parent_of<Tag>("holder", [&]() -> Tag { return f.getBlock("blk").getTag("holder"); }).references()) v.push_back(e.id()); return v; };
         conts.push_back(c);
     }
     {
         Cont c; c.name = "MultiTag.references"; c.link = true;
         c.setup = [](File &f, const std::vector<std::string> &names) { Block b = f.createBlock("blk", "t"); DataArray p = b.createDataArray("positions", "t", DataType::Double, NDSize({2})); b.createMultiTag("holder", "t", p); for (auto &n : names) b.createDataArray(n, "t", DataType::Double, NDSize({1})); };
         c.create = [](File &f, const std::string &n) { Block b = f.getBlock("blk"); MultiTag t = b.getMultiTag("holder"); DataArray a = b.getDataArray(n); if (t.hasReference(a.id())) throw DuplicateName("reference exists"); t.addReference(a); return a.id(); };
-        c.count = [](File &f) { return (size_t)f.getBlock("blk").getMultiTag("holder").referenceCount(); };
-        c.at = [](File &f, size_t i) { auto e = f.getBlock("blk").getMultiTag("holder").getReference(i); return Child{e.name(), e.id()}; };
-        c.by = [](File &f, const std::string &k) { auto e = f.getBlock("blk").getMultiTag("holder").getReference(k); return e ? e.id() : std::string(); };
-        c.has = [](File &f, const std::string &k) { return f.getBlock("blk").getMultiTag("holder").hasReference(k); };
-        c.has_handle = [](File &f, size_t i) { MultiTag t = f.getBlock("blk").getMultiTag("holder"); return t.hasReference(t.getReference(i)); };
-        c.del = [](File &f, const std::string &k) { return f.getBlock("blk").getMultiTag("holder").removeReference(k); };
-        c.del_handle = [](File &f, size_t i) { MultiTag t = f.getBlock("blk").getMultiTag("holder"); return t.removeReference(t.getReference(i)); };
-        c.list = [](File &f) { std::vector<std::string> v; for (auto &e : f.getBlock("blk").getMultiTag("holder").references()) v.push_back(e.id()); return v; };
+        c.count = [](File &f) { return (size_t)parent_of<MultiTag>("holder", [&]() -> MultiTag { return f.getBlock("blk").getMultiTag("holder"); }).referenceCount(); };
+        c.at = [](File &f, size_t i) { auto e = parent_of<MultiTag>("holder", [&]() -> MultiTag { return f.getBlock("blk").getMultiTag("holder"); }).getReference(i); return Child{e.name(), e.id()}; };
+        c.by = [](File &f, const std::string &k) { auto e = parent_of<MultiTag>("holder", [&]() -> MultiTag { return f.getBlock("blk").getMultiTag("holder"); }).getReference(k); return e ? e.id() : std::string(); };
+        c.has = [](File &f, const std::string &k) { return parent_of<MultiTag>("holder", [&]() -> MultiTag { return f.getBlock("blk").getMultiTag("holder"); }).hasReference(k); };
+        c.has_handle = [](File &f, size_t i) { MultiTag t = parent_of<MultiTag>("holder", [&]() -> MultiTag { return f.getBlock("blk").getMultiTag("holder"); }); return t.hasReference(t.getReference(i)); };
+        c.del = [](File &f, const std::string &k) { return parent_of<MultiTag>("holder", [&]() -> MultiTag { return f.getBlock("blk").getMultiTag("holder"); }).removeReference(k); };
+        c.del_handle = [](File &f, size_t i) { MultiTag t = parent_of<MultiTag>("holder", [&]() -> MultiTag { return f.getBlock("blk").getMultiTag("holder"); }); return t.removeReference(t.getReference(i)); };
+        c.list = [](File &f) { std::vector<std::string> v; for (auto &e : parent_of<MultiTag>("holder", [&]() -> MultiTag { return f.getBlock("blk").getMultiTag("holder"); }).references()) v.push_back(e.id()); return v; };
         conts.push_back(c);
     }
     {
         Cont c; c.name = "Group.dataArrays"; c.link = true;
         c.setup = [](File &f, const std::vector<std::string> &names) { Block b = f.createBlock("blk", "t"); b.createGroup("holder", "t"); for (auto &n : names) b.createDataArray(n, "t", DataType::Double, NDSize({1})); };
         c.create = [](File &f, const std::string &n) { Block b = f.getBlock("blk"); Group g = b.getGroup("holder"); DataArray a = b.getDataArray(n); if (g.hasDataArray(a.id())) throw DuplicateName("member exists"); g.addDataArray(a); return a.id(); };
-        c.count = [](File &f) { return (size_t)f.getBlock("blk").getGroup("holder").dataArrayCount(); };
-        c.at = [](File &f, size_t i) { auto e = f.getBlock("blk").getGroup("holder").getDataArray(i); return Child{e.name(), e.id()}; };
-        c.by = [](File &f, const std::string &k) { auto e = f.getBlock("blk").getGroup("holder").getDataArray(k); return e ? e.id() : std::string(); };
-        c.has = [](File &f, const std::string &k) { return f.getBlock("blk").getGroup("holder").hasDataArray(k); };
-        c.has_handle = [](File &f, size_t i) { Group g = f.getBlock("blk").getGroup("holder"); return g.hasDataArray(g.getDataArray(i)); };
-        c.del = [](File &f, const std::string &k) { return f.getBlock("blk").getGroup("holder").removeDataArray(k); };
-        c.del_handle = [](File &f, size_t i) { Group g = f.getBlock("blk").getGroup("holder"); return g.removeDataArray(g.getDataArray(i)); };
-        c.list = [](File &f) { std::vector<std::string> v; for (auto &e : f.getBlock("blk").getGroup("holder").dataArrays()) v.push_back(e.id()); return v; };
+        c.count = [](File &f) { return (size_t)parent_of<Group>("holder", [&]() -> Group { return f.getBlock("blk").getGroup("holder"); }).dataArrayCount(); };
+        c.at = [](File &f, size_t i) { auto e = parent_of<Group>("holder", [&]() -> Group { return f.getBlock("blk").getGroup("holder"); }).getDataArray(i); return Child{e.name(), e.id()}; };
+        c.by = [](File &f, const std::string &k) { auto e = parent_of<Group>("holder", [&]() -> Group { return f.getBlock("blk").getGroup("holder"); }).getDataArray(k); return e ? e.id() : std::string(); };
+        c.has = [](File &f, const std::string &k) { return parent_of<Group>("holder", [&]() -> Group { return f.getBlock("blk").getGroup("holder"); }).hasDataArray(k); };
+        c.has_handle = [](File &f, size_t i) { Group g = parent_of<Group>("holder", [&]() -> Group { return f.getBlock("blk").getGroup("holder"); }); return g.hasDataArray(g.getDataArray(i)); };
+        c.del = [](File &f, const std::string &k) { return parent_of<Group>("holder", [&]() -> Group { return f.getBlock("blk").getGroup("holder"); }).removeDataArray(k); };
+        c.del_handle = [](File &f, size_t i) { Group g = parent_of<Group>("holder", [&]() -> Group { return f.getBlock("blk").getGroup("holder"); }); return g.removeDataArray(g.getDataArray(i)); };
+        c.list = [](File &f) { std::vector<std::string> v; for (auto &e : parent_of<Group>("holder", [&]() -> Group { return f.getBlock("blk").getGroup("holder"); }).dataArrays()) v.push_back(e.id()); return v; };
         conts.push_back(c);
     }
     {
         Cont c; c.name = "Group.tags"; c.link = true;
         c.setup = [](File &f, const std::vector<std::string> &names) { Block b = f.createBlock("blk", "t"); b.createGroup("holder", "t"); for (auto &n : names) b.createTag(n, "t", {1.0}); };
         c.create = [](File &f, const std::string &n) { Block b = f.getBlock("blk"); Group g = b.getGroup("holder"); Tag a = b.getTag(n); if (g.hasTag(a.id())) throw DuplicateName("member exists"); g.addTag(a); return a.id(); };
-        c.count = [](File &f) { return (size_t)f.getBlock("blk").getGroup("holder").tagCount(); };
-        c.at = [](File &f, size_t i) { auto e = f.getBlock("blk").getGroup("holder").getTag(i); return Child{e.name(), e.id()}; };
-        c.by = [](File &f, const std::string &k) { auto e = f.getBlock("blk").getGroup("holder").getTag(k); return e ? e.id() : std::string(); };
-        c.has = [](File &f, const std::string &k) { return f.getBlock("blk").getGroup("holder").hasTag(k); };
-        c.has_handle = [](File &f, size_t i) { Group g = f.getBlock("blk").getGroup("holder"); return g.hasTag(g.getTag(i)); };
-        c.del = [](File &f, const std::string &k) { return f.getBlock("blk").getGroup("holder").removeTag(k); };
-        c.del_handle = [](File &f, size_t i) { Group g = f.getBlock("blk").getGroup("holder"); return g.removeTag(g.getTag(i)); };
-        c.list = [](File &f) { std::vector<std::string> v; for (auto &e : f.getBlock("blk").getGroup("holder").tags()) v.push_back(e.id()); return v; };
+        c.count = [](File &f) { return (size_t)parent_of<Group>("holder", [&]() -> Group { return f.getBlock("blk").getGroup("holder"); }).tagCount(); };
+        c.at = [](File &f, size_t i) { auto e = parent_of<Group>("holder", [&]() -> Group { return f.getBlock("blk").getGroup("holder"); }).getTag(i); return Child{e.name(), e.id()}; };
+        c.by = [](File &f, const std::string &k) { auto e = parent_of<Group>("holder", [&]() -> Group { return f.getBlock("blk").getGroup("holder"); }).getTag(k); return e ? e.id() : std::string(); };
+        c.has = [](File &f, const std::string &k) { return parent_of<Group>("holder", [&]() -> Group { return f.getBlock("blk").getGroup("holder"); }).hasTag(k); };
+        c.has_handle = [](File &f, size_t i) { Group g = parent_of<Group>("holder", [&]() -> Group { return f.getBlock("blk").getGroup("holder"); }); return g.hasTag(g.getTag(i)); };
+        c.del = [](File &f, const std::string &k) { return parent_of<Group>("holder", [&]() -> Group { return f.getBlock("blk").getGroup("holder"); }).removeTag(k); };
+        c.del_handle = [](File &f, size_t i) { Group g = parent_of<Group>("holder", [&]() -> Group { return f.getBlock("blk").getGroup("holder"); }); return g.removeTag(g.getTag(i)); };
+        c.list = [](File &f) { std::vector<std::string> v; for (auto &e : parent_of<Group>("holder", [&]() -> Group { return f.getBlock("blk").getGroup("holder"); }).tags()) v.push_back(e.id()); return v; };
         conts.push_back(c);
     }
     {
         Cont c; c.name = "DataArray.sources"; c.link = true; c.by_name = false;   // entity sources are addressed by id only
         c.setup = [](File &f, const std::vector<std::string> &names) { Block b = f.createBlock("blk", "t"); b.createDataArray("holder", "t", DataType::Double, NDSize({1})); for (auto &n : names) b.createSource(n, "t"); };
         c.create = [](File &f, const std::string &n) { Block b = f.getBlock("blk"); DataArray h = b.getDataArray("holder"); Source s = b.getSource(n); if (h.hasSource(s.id())) throw DuplicateName("source attached"); h.addSource(s); return s.id(); };
-        c.count = [](File &f) { return (size_t)f.getBlock("blk").getDataArray("holder").sourceCount(); };
-        c.at = [](File &f, size_t i) { auto e = f.getBlock("blk").getDataArray("holder").getSource(i); return Child{e.name(), e.id()}; };
-        c.by = [](File &f, const std::string &k) { auto e = f.getBlock("blk").getDataArray("holder").getSource(k); return e ? e.id() : std::string(); };
-        c.has = [](File &f, const std::string &k) { return f.getBlock("blk").getDataArray("holder").hasSource(k); };
-        c.has_handle = [](File &f, size_t i) { DataArray h = f.getBlock("blk").getDataArray("holder"); return h.hasSource(h.getSource(i)); };
-        c.del = [](File &f, const std::string &k) { return f.getBlock("blk").getDataArray("holder").removeSource(k); };
-        c.del_handle = [](File &f, size_t i) { DataArray h = f.getBlock("blk").getDataArray("holder"); return h.removeSource(h.getSource(i)); };
-        c.list = [](File &f) { std::vector<std::string> v; for (auto &e : f.getBlock("blk").getDataArray("holder").sources()) v.push_back(e.id()); return v; };
+        c.count = [](File &f) { return (size_t)parent_of<DataArray>("holder", [&]() -> DataArray { return f.getBlock("blk").getDataArray("holder"); }).sourceCount(); };
+        c.at = [](File &f, size_t i) { auto e = parent_of<DataArray>("holder", [&]() -> DataArray { return f.getBlock("blk").getDataArray("holder"); }).getSource(i); return Child{e.name(), e.id()}; };
+        c.by = [](File &f, const std::string &k) { auto e = parent_of<DataArray>("holder", [&]() -> DataArray { return f.getBlock("blk").getDataArray("holder"); }).getSource(k); return e ? e.id() : std::string(); };
+        c.has = [](File &f, const std::string &k) { return parent_of<DataArray>("holder", [&]() -> DataArray { return f.getBlock("blk").getDataArray("holder"); }).hasSource(k); };
+        c.has_handle = [](File &f, size_t i) { DataArray h = parent_of<DataArray>("holder", [&]() -> DataArray { return f.getBlock("blk").getDataArray("holder"); }); return h.hasSource(h.getSource(i)); };
+        c.del = [](File &f, const std::string &k) { return parent_of<DataArray>("holder", [&]() -> DataArray { return f.getBlock("blk").getDataArray("holder"); }).removeSource(k); };
+        c.del_handle = [](File &f, size_t i) { DataArray h = parent_of<DataArray>("holder", [&]() -> DataArray { return f.getBlock("blk").getDataArray("holder"); }); return h.removeSource(h.getSource(i)); };
+        c.list = [](File &f) { std::vector<std::string> v; for (auto &e : parent_of<DataArray>("holder", [&]() -> DataArray { return f.getBlock("blk").getDataArray("holder"); }).sources()) v.push_back(e.id()); return v; };
         conts.push_back(c);
     }
     {
@@ -136,14 +150,14 @@ static std::vector<Cont> make_containers() {
         Cont c; c.name = "Tag.features"; c.link = true;
         c.setup = [](File &f, const std::vector<std::string> &names) { Block b = f.createBlock("blk", "t"); b.createTag("holder", "t", {1.0}); for (auto &n : names) b.createDataArray(n, "t", DataType::Double, NDSize({1})); };
         c.create = [](File &f, const std::string &n) { Block b = f.getBlock("blk"); Tag t = b.getTag("holder"); DataArray a = b.getDataArray(n); if (t.hasFeature(a.id())) throw DuplicateName("feature exists"); return t.createFeature(a, LinkType::Untagged).id(); };
-        c.count = [](File &f) { return (size_t)f.getBlock("blk").getTag("holder").featureCount(); };
-        c.at = [](File &f, size_t i) { auto e = f.getBlock("blk").getTag("holder").getFeature(i); return Child{e.data().name(), e.id()}; };
-        c.by = [](File &f, const std::string &k) { auto e = f.getBlock("blk").getTag("holder").getFeature(k); return e ? e.id() : std::string(); };
-        c.has = [](File &f, const std::string &k) { return f.getBlock("blk").getTag("holder").hasFeature(k); };
-        c.has_handle = [](File &f, size_t i) { Tag t = f.getBlock("blk").getTag("holder"); return t.hasFeature(t.getFeature(i)); };
-        c.del = [](File &f, const std::string &k) { return f.getBlock("blk").getTag("holder").deleteFeature(k); };
-        c.del_handle = [](File &f, size_t i) { Tag t = f.getBlock("blk").getTag("holder"); return t.deleteFeature(t.getFeature(i)); };
-        c.list = [](File &f) { std::vector<std::string> v; for (auto &e : f.getBlock("blk").getTag("holder").features()) v.push_back(e.id()); return v; };
+        c.count = [](File &f) { return (size_t)parent_of<Tag>("holder", [&]() -> Tag { return f.getBlock("blk").getTag("holder"); }).featureCount(); };
+        c.at = [](File &f, size_t i) { auto e = parent_of<Tag>("holder", [&]() -> Tag { return f.getBlock("blk").getTag("holder"); }).getFeature(i); return Child{e.data().name(), e.id()}; };
+        c.by = [](File &f, const std::string &k) { auto e = parent_of<Tag>("holder", [&]() -> Tag { return f.getBlock("blk").getTag("holder"); }).getFeature(k); return e ? e.id() : std::string(); };
+        c.has = [](File &f, const std::string &k) { return parent_of<Tag>("holder", [&]() -> Tag { return f.getBlock("blk").getTag("holder"); }).hasFeature(k); };
+        c.has_handle = [](File &f, size_t i) { Tag t = parent_of<Tag>("holder", [&]() -> Tag { return f.getBlock("blk").getTag("holder"); }); return t.hasFeature(t.getFeature(i)); };
+        c.del = [](File &f, const std::string &k) { return parent_of<Tag>("holder", [&]() -> Tag { return f.getBlock("blk").getTag("holder"); }).deleteFeature(k); };
+        c.del_handle = [](File &f, size_t i) { Tag t = parent_of<Tag>("holder", [&]() -> Tag { return f.getBlock("blk").getTag("holder"); }); return t.deleteFeature(t.getFeature(i)); };
+        c.list = [](File &f) { std::vector<std::string> v; for (auto &e : parent_of<Tag>("holder", [&]() -> Tag { return f.getBlock("blk").getTag("holder"); }).features()) v.push_back(e.id()); return v; };
         conts.push_back(c);
     }
     return conts;
@@ -184,7 +198,16 @@ struct Runner {
 
     // executes the steps on a fresh file; checks every invariant after the LAST step (prefixes are traces of their own)
     // returns false if the last step was rejected / not applicable (the trace is not extended)
+    bool via_kept = false;
+    // the witness handle is obtained now and asked every question once (so anything it memoises, it memoises now)
+    void warm(File &f) {
+        g_kept.clear(); g_use_kept = true;
+        vf::guarded([&] { c.count(f); c.list(f); for (auto &nm : pool) { vf::guarded([&] { c.has(f, nm); }); vf::guarded([&] { c.by(f, nm); }); } });
+        g_use_kept = false;
+    }
     bool run(int seed_children, const std::vector<Step> &steps, std::vector<Child> *model_out) {
+        g_kept.clear();
+        struct Drop { ~Drop() { g_kept.clear(); g_use_kept = false; } } drop;   // witness handles never outlive the trace's file
         vf::set_clock(1500000000);
         File f = File::open(path, FileMode::Overwrite);
         c.setup(f, pool);
@@ -192,12 +215,13 @@ struct Runner {
         for (int i = 0; i < seed_children; i++) { std::string n = "p" + std::to_string(i); if (c.link) continue; model.push_back(Child{n, c.create(f, n)}); }
         if (c.link) for (int i = 0; i < seed_children && i < (int)pool.size(); i++) model.push_back(Child{pool[i], c.create(f, pool[i])});
         bool extended = true;
+        warm(f);
         for (size_t si = 0; si < steps.size(); si++) {
             const Step &s = steps[si];
             bool last = si + 1 == steps.size();
             vf::set_clock(1500000000 + (long)si + 1);
             std::string ctx = c.name + " " + step_str(pool, s);
-            if (s.kind == 2) { f.close(); f = File::open(path, FileMode::ReadWrite); }
+            if (s.kind == 2) { g_kept.clear(); f.close(); f = File::open(path, FileMode::ReadWrite); warm(f); }
             else if (s.kind == 0) {
                 const std::string &n = pool[s.arg];
                 bool present = false;
@@ -235,7 +259,13 @@ struct Runner {
                 else if (last) extended = false;
             }
         }
-        if (!steps.empty()) check(f, model, steps);
+        if (!steps.empty()) {
+            check(f, model, steps);
+            via_kept = true; g_use_kept = true;
+            check(f, model, steps);
+            via_kept = false; g_use_kept = false;
+        }
+        g_kept.clear();
         f.close();
         if (model_out) *model_out = model;
         traces++;
@@ -246,7 +276,7 @@ struct Runner {
         std::string last = step_str(pool, steps.back());
         std::string lastkind = steps.back().kind == 0 ? "create" : steps.back().kind == 1 ? std::string("delete ") + MODE[steps.back().mode] : "REOPEN";
         auto V = [&](const std::string &assertion, const std::string &cls, const std::string &what) {
-            vf::violation("C03|" + c.name + "|after " + lastkind + "|" + assertion + "|" + cls, c.name + ": " + what + " (last step " + last + ")");
+            vf::violation("C03|" + c.name + "|after " + lastkind + "|" + assertion + (via_kept ? " through a parent handle obtained before the steps" : "") + "|" + cls, c.name + ": " + what + " (last step " + last + ")");
         };
         vf::count("invariant_checks");
         size_t n = 0;
